@@ -46,7 +46,7 @@ SPEC = dict(
                  'hostile nesting stops at 2000 levels (deeper is the parser-recursion finding F6 of C02/C07); regex-bomb patterns (F10) are not generated here',
                  'g++ 12 ASan/UBSan/LSan and valgrind memcheck report what they claim to report; CPU budget per hostile case 20 CPU-seconds'],
     legs=[
-        Leg('regress', 'h_filter', 'asan', opts={'mode': 'regress'}, quick=1, thorough=1, workers=1, leaks=True, min_cases=6),
+        Leg('regress', 'h_filter', 'asan', opts={'mode': 'regress'}, quick=1, thorough=1, workers=1, leaks=True, min_cases=8),
         Leg('semantics', 'h_filter', 'asan', opts={'mode': 'semantics'}, quick=160000 * _S, thorough=8000000, workers=16, leaks=True),
         Leg('hostile', 'h_filter', 'asan', opts={'mode': 'hostile'}, quick=64000 * _S, thorough=3200000, workers=16, leaks=True, cpu_budget=20.0),
         Leg('memcheck', 'h_filter', 'plain', opts={'mode': 'semantics'}, quick=3200 * _S, thorough=160000, workers=16, valgrind=True),
